@@ -204,6 +204,11 @@ def check(plan, transcript, config, opts, refs=None):
     for (t, _), ref in zip(sorted(th.items()), refs):
         mine = got.get(t, [])
         out.evals += len(mine)
+        for ln in mine:
+            if ln.startswith('CHAIN '):
+                out.violate('C19', 'C19|thrsim|handler-chain|%s' % ln.split()[1],
+                            'thread %d: the handler chain of its context was not restored when the step %s returned' % (t, ln.split()[1]))
+                break
         if ref[0] != 'ok':
             out.probe('solo-reference-died')
             continue
